@@ -27,6 +27,29 @@ CLAIMED = {
          'domain: a complete decision.',
          'Trusted: Lean kernel (axiom propext only); harness/extract.py observe_cell; the transcription of Table 9-10 '
          'and Tables 9-6..9-9 in Dicom/Spec/Table910.lean.'),
+ 'C03': ('DESIGN.md §6 C03',
+         'Lean 4 theorem on the framing model + differential runs of the real provider loop over exhaustive cuts',
+         'segmentation_independent / frames_concat are proved for every stream and every partition on the model of '
+         '_process_incoming and the receive buffer; the model is tied to the real buffer code by comparing recognised '
+         'PDUs and residue, and the provider-level statement (indications, PDUs sent, final state) is checked on the '
+         'real loop for every single cut and pairs of cuts of a corpus of conversations, dribble, coalescing, burst '
+         'and pre-queued delivery. The lift of the theorem to the whole provider is part of C05 (partial).',
+         'Trusted: Lean kernel; S2 fakes (select/recv/clock); the reactive user of harness/scen.py. Partial: the '
+         'provider-level statement is exhaustive only over the corpus and the cut classes named, not proved.'),
+ 'C06': ('DESIGN.md §6 C06',
+         'Lean 4 theorems on the fragmentation model + correspondence with the real encoder on a boundary grid',
+         'frag_size, frag_shape, frag_content, file_eq_bytes hold for every command set, data set, context and usable '
+         'maximum length; the model is diffed against Association.send/DIMSEMessage.encode fragment by fragment and '
+         'an independent P-DATA reader judges the seven statements on the real PDUs over every fragment size 1..40 x '
+         'every length 1..4k+2, every maximum 7..300, 2^e boundaries to 2^32-1, 0, all 23 classes, bytes and files.',
+         'Trusted: Lean kernel; harness oracle/parser; pydicom command-set encoding is an input to the model.'),
+ 'C07': ('DESIGN.md §6 C07',
+         'Lean 4 theorem (any grouping) + correspondence with the real decoder over all compositions',
+         'reassembly_exact / not_earlier: for every message, maximum length and EVERY grouping of the fragments into '
+         'non-empty PDUs the decoder model ends with exactly the transmitted bytes and completes exactly at the last '
+         'PDU; the real DIMSEDecoder is run on all 2^(n-1) compositions of real fragment lists (n<=8 quick), in '
+         'memory and file-backed, and diffed with the model; the dispatch table is regenerated and proved exact.',
+         'Trusted: Lean kernel; harness oracle; pydicom for command-set decode and file readability (parameters).'),
 }
 
 PENDING_REASON = 'check not built yet in this round; planned in DESIGN.md §6 (Lean model + theorem + tie)'
